@@ -6,7 +6,7 @@ echo "== patch"; cat seed_out/patch.diff | head -60
 echo "== build with cfg"; RUSTFLAGS="--cfg pricelevel_verif" cargo build --offline --target-dir $wt/target_on 2>&1 | tail -1; rm -rf $wt/target_on
 echo "== tests with change"; cargo test --workspace --offline 2>&1 | grep -E "^test result: .* [1-9][0-9]+ passed|FAILED" | head -3
 echo "== demo with change"; timeout 600 cargo run --offline -q -p examples --bin seed_demo >/tmp/demo_with.log 2>&1; echo "exit=$?"; tail -3 /tmp/demo_with.log
-git stash -q -- src
+git diff -- src > $wt/seed_out/.confirm.diff; git checkout -- src
 echo "== demo without change"; timeout 600 cargo run --offline -q -p examples --bin seed_demo >/tmp/demo_without.log 2>&1; echo "exit=$?"; tail -2 /tmp/demo_without.log
-git stash pop -q
+git apply $wt/seed_out/.confirm.diff; rm -f $wt/seed_out/.confirm.diff
 git diff --stat -- src | tail -1
